@@ -798,3 +798,78 @@ Proof.
   intros H i j k v E. destruct (mixup_entry _ _ _ _ _ _ _ _ H i j k v E) as (p & m & Hp & Hlt & _ & Hv).
   exists p. repeat split; auto. destruct m; auto.
 Qed.
+
+(* ------------------------------------------------------------------ growth 2: L1 normalisation at full strength *)
+(* for EVERY non-negative score vector with positive sum and EVERY mask row, lambda is the share of the kept mass and a
+   number in [0,1] (any mass: 1, 1 +- 1e-5, 10, ...) *)
+Lemma lam_feature_share_unit mi mrow :
+  Forall (fun v => 0 <= v) mi -> 0 < qsum mi ->
+  lam_feature mi mrow == kept_mass mi mrow / qsum mi /\ 0 <= lam_feature mi mrow <= 1.
+Proof. intros Hn Hs. split; [apply lam_feature_share; exact Hs|apply lam_feature_unit; assumption]. Qed.
+
+Lemma kept_mass_all_true mi : kept_mass mi (repeat true (length mi)) == qsum mi.
+Proof.
+  unfold kept_mass. induction mi as [|a mi IH]; simpl; [reflexivity|]. rewrite IH. ring.
+Qed.
+
+Lemma kept_mass_all_false mi : kept_mass mi (repeat false (length mi)) == 0.
+Proof.
+  unfold kept_mass. induction mi as [|a mi IH]; simpl; [reflexivity|]. rewrite IH. ring.
+Qed.
+
+(* a row that keeps every column has lambda = 1 (plain own target), one that keeps none has lambda = 0 *)
+Lemma lam_feature_all_kept mi : 0 < qsum mi -> lam_feature mi (repeat true (length mi)) == 1.
+Proof.
+  intros Hs. rewrite (lam_feature_share _ _ Hs), kept_mass_all_true. field.
+  intros E. rewrite E in Hs. apply (Qlt_irrefl 0 Hs).
+Qed.
+
+Lemma lam_feature_none_kept mi : 0 < qsum mi -> lam_feature mi (repeat false (length mi)) == 0.
+Proof.
+  intros Hs. rewrite (lam_feature_share _ _ Hs), kept_mass_all_false. field.
+  intros E. rewrite E in Hs. apply (Qlt_irrefl 0 Hs).
+Qed.
+
+(* F = 1: feature mode swaps the whole row or nothing, and lambda says exactly which (1 = own, 0 = partner), whatever
+   the single score is *)
+Lemma lam_feature_single_column m b : 0 < m -> lam_feature [m] [b] == bq b.
+Proof.
+  intros Hm. assert (Hs : 0 < qsum [m]) by (simpl; lra).
+  rewrite (lam_feature_share _ _ Hs). unfold kept_mass. simpl. destruct b; simpl; field; lra.
+Qed.
+
+(* the seeded variant C19_12: scores whose mass is within 1e-3 of one are used WITHOUT normalisation *)
+Definition norm_mi_skip_close (mi : list Q) : list Q :=
+  let s := qsum mi in
+  if Qle_bool (Qabs (s - 1)) (1 # 1000) then mi else map (fun m => m / s) mi.
+Definition lam_feature_skip_close (mi : list Q) (mrow : list bool) : Q :=
+  qsum (map2 (fun w m => w * bq m) (norm_mi_skip_close mi) mrow).
+
+(* ... is refuted: [0.5008; 0.3; 0.2] (mass 1.0008), a row keeping all three columns gets lambda = 1.0008 > 1, i.e. a
+   NEGATIVE weight for the partner's class; the library's formula gives exactly 1 *)
+Lemma skip_close_refuted :
+  exists mi mrow,
+    Forall (fun v => 0 <= v) mi /\ 0 < qsum mi /\
+    ~ (lam_feature_skip_close mi mrow <= 1) /\ ~ (lam_feature_skip_close mi mrow == kept_mass mi mrow / qsum mi) /\
+    lam_feature mi mrow == 1.
+Proof.
+  exists [5008 # 10000; 3 # 10; 2 # 10], [true; true; true].
+  split; [repeat constructor; unfold Qle; simpl; lia|].
+  split; [vm_compute; reflexivity|].
+  split; [intros H; vm_compute in H; apply H; reflexivity|].
+  split; [intros H; vm_compute in H; discriminate|].
+  vm_compute. reflexivity.
+Qed.
+
+(* the seeded variant C19_11: feature mode falls back to hidden mode when there is a single column, so lambda is the
+   beta rate instead of the share: refuted on a one-column batch whose row keeps its column at rate 1/4 *)
+Lemma single_column_fallback_refuted :
+  exists mi (dr : draws),
+    0 < qsum mi /\
+    mixup_lams MixFeature (Some mi) dr = map (lam_feature mi) (draw_mask (rates dr) (unif dr)) /\
+    ~ Forall2 Qeq (mixup_lams MixHidden (Some mi) dr) (mixup_lams MixFeature (Some mi) dr).
+Proof.
+  exists [3], {| rates := [1 # 4]; perm := [0%nat]; unif := [[0]] |}.
+  split; [vm_compute; reflexivity|]. split; [reflexivity|].
+  intros H. vm_compute in H. inversion H as [|? ? ? ? E _]. vm_compute in E. discriminate.
+Qed.
